@@ -785,6 +785,19 @@ def assume(env: Env, test: ast.AST, polarity: bool) -> None:
     if isinstance(test, ast.Name) and hasattr(env.vars.get(test.id), "with_truth"):
         env.vars[test.id] = env.vars[test.id].with_truth(polarity)   # e.g. a filtered list known (non-)empty on this path
         return
+    if isinstance(test, (ast.Name, ast.Attribute, ast.BinOp)):
+        v_ = evaluate(env, test)
+        if isinstance(v_, Lin):
+            # truthiness of a number: zero / non-zero (a non-zero integer known to be non-negative is at least one)
+            integral = all(s_ in f.ints for s_ in v_.syms())
+            if not polarity:
+                f.add_le(v_, Lin.c(0))
+                f.add_ge(v_, Lin.c(0))
+            elif integral and entails_ge0(f, v_):
+                f.add_ge(v_, Lin.c(1))
+            elif integral and entails_ge0(f, -v_):
+                f.add_le(v_, Lin.c(-1))
+        return
     if isinstance(test, ast.BoolOp):
         if isinstance(test.op, ast.And) and polarity:
             for v in test.values:
